@@ -1,6 +1,6 @@
 """C06 - rewards paid never exceed what a farm has emitted (structural part)."""
 import re
-from rules.common import (PredTrue, PredFalse, TryOk, VariantEdge, NONPAYABLE, no_effects, where, flat_atoms, all_origins, exact_origins,
+from rules.common import (opmap, PredTrue, PredFalse, TryOk, VariantEdge, NONPAYABLE, no_effects, where, flat_atoms, all_origins, exact_origins,
                           ops_of, show, origin_match, eq_test, pred_test, field_val, effects_signature)
 from base import CutPolicy, dep_origins
 from absint import EMPTY, vfield, tagvals, const_of
@@ -49,7 +49,7 @@ def run(W, chk):
     okst = bool(st)
     for e in st:
         r = e.extra.get("ret") or EMPTY
-        m = {o: ops for (o, ops) in flat_atoms(r) if "key" not in ops}
+        m = opmap(r, lambda o, ops: "key" not in ops)
         okst = okst and m.get("Store(LAST_CLAIMED_EPOCH)") == frozenset(["add"]) and m.get("Const(1_u64)") == frozenset(["add"])
     chk.expect(okst, "PROV-claim-start", "compute_start_from_epoch_for_address", "next claim starts at last claimed + 1",
                "claim start epoch <- %s" % [show(e.extra.get("ret") or EMPTY)[:200] for e in st], where(st[0]) if st else A.entry)
@@ -63,7 +63,7 @@ def run(W, chk):
     okr = bool(rd)
     for e in rd:
         k = e.extra.get("key", EMPTY)
-        k2 = {o: ops for (o, ops) in flat_atoms(vfield(k, "2"))}
+        k2 = opmap(vfield(k, "2"))
         okr = okr and e.extra.get("sop") == "may_load" and exact_origins(vfield(k, "0")) == {"address"} and \
             exact_origins(vfield(k, "1")) == {"lp_asset_denom"} and bool(k2) and all("range" in ops for o, ops in k2.items() if not o.startswith("Const("))
     els = vfield(H.ret if H.ret is not None else EMPTY, "[*]")
@@ -92,7 +92,7 @@ def run(W, chk):
                 continue
             n += 1
             k2 = vfield(e.extra.get("key", EMPTY), "2")
-            m = {o: ops for (o, ops) in flat_atoms(k2)}
+            m = opmap(k2)
             nxt = m == {"Query(CurrentEpoch).id": frozenset(["add"]), "Const(1_u64)": frozenset(["add"])}
             bounded = set(m) <= UNTIL and set(m) and all(not ops for ops in m.values()) and vp == ("Claim",)
             chk.expect(nxt or bounded, "PROV-weight-key", "%s@%s" % ("/".join(vp), e.span.rsplit(":", 1)[-1]),
